@@ -61,8 +61,109 @@ def rebuild(data, f, tree=None, footer_bytes=None):
     return body + fb + struct.pack('<I', len(fb) & 0xFFFFFFFF) + b'PAR1'
 
 
+def _shift_footer_offsets(tree, after, delta, chunk_key=None):
+    """copy of the FileMetaData tree in which every page/chunk offset beyond `after` is moved by delta and the chunk
+    identified by chunk_key=(row group, column) grows by delta (used after a page header was re-encoded with another length)"""
+    out = []
+    for fid, t, v in tree:
+        if fid == 4 and t == T_LIST and v[0] == T_STRUCT:
+            groups = []
+            for gi, rg in enumerate(v[1]):
+                nrg = []
+                for f2, t2, v2 in rg:
+                    if f2 == 1 and t2 == T_LIST and v2[0] == T_STRUCT:
+                        cols = []
+                        for ci, cc in enumerate(v2[1]):
+                            ncc = []
+                            for f3, t3, v3 in cc:
+                                if f3 == 2 and t3 == T_I64 and v3 > after:
+                                    v3 += delta
+                                elif f3 == 3 and t3 == T_STRUCT:
+                                    md = []
+                                    for f4, t4, v4 in v3:
+                                        if f4 in (9, 10, 11) and t4 == T_I64 and v4 > after:
+                                            v4 += delta
+                                        elif f4 == 7 and t4 == T_I64 and chunk_key == (gi, ci):
+                                            v4 += delta
+                                        md.append((f4, t4, v4))
+                                    v3 = md
+                                ncc.append((f3, t3, v3))
+                            cols.append(ncc)
+                        v2 = (v2[0], cols)
+                    elif f2 == 5 and t2 == T_I64 and v2 > after:
+                        v2 += delta
+                    elif f2 == 6 and t2 == T_I64 and chunk_key is not None and chunk_key[0] == gi:
+                        v2 += delta
+                    nrg.append((f2, t2, v2))
+                groups.append(nrg)
+            v = (v[0], groups)
+        out.append((fid, t, v))
+    return out
+
+
+def mutate_page_header_field(rng, data, f):
+    """re-encodes one page header with one (or two) integer fields replaced by boundary values or values derived from the file
+    geometry (bytes left to the end of the chunk / data region / file, counted from the header or from the body, +-2); the rest
+    of the file is shifted and the footer offsets are corrected, so only the chosen inconsistency is present"""
+    pages = []
+    for gi, rg in enumerate(f.row_groups):
+        for ci in range(len(rg['columns'])):
+            try:
+                pl = f.pages_of(gi, ci)
+            except P.ParquetError:
+                continue
+            for pi, pg in enumerate(pl):
+                pages.append((gi, ci, pi, pg, pl[-1].body + pl[-1].comp))
+    if not pages:
+        return None
+    gi, ci, pi, pg, chunk_end = rng.choice(pages)
+    fields = [x for x in _paths(pg.tree) if x[1] in (T_I32, T_I64, T_I16, T_BYTE)]
+    if not fields:
+        return None
+    sizes = [x for x in fields if x[0] in ((1,), (2,)) or (len(x[0]) == 3 and x[0][1] == 's' and x[0][2] == 0)]   # (un)compressed size, num_values
+    n = 1 if rng.random() < 0.75 else 2
+    plan = []
+    for _ in range(n):
+        pth, t, v = rng.choice(sizes) if sizes and rng.random() < 0.6 else rng.choice(fields)
+        k = rng.random()
+        if k < 0.5:
+            plan.append((pth, t, ('geom', rng.choice(['body', 'offset']), rng.choice(['chunk', 'footer', 'file', 'file-8', 'file-4']), rng.choice([-2, -1, 0, 0, 1, 2]))))
+        elif k < 0.8:
+            plan.append((pth, t, ('const', rng.choice(BOUNDARY))))
+        else:
+            plan.append((pth, t, ('const', v + rng.choice([-1, 1, 2, -2, 7, 8, -8, 100]))))
+    hs = pg.header_size
+    flen = len(data) - f.footer_start - 8
+    for _ in range(4):
+        # geometry of the file as it will be after re-encoding (header and footer lengths feed back into the values)
+        delta = hs - pg.header_size
+        newlen = f.footer_start + delta + flen + 8
+        ends = {'chunk': chunk_end + delta, 'footer': f.footer_start + delta, 'file': newlen, 'file-8': newlen - 8, 'file-4': newlen - 4}
+        bases = {'body': pg.offset + hs, 'offset': pg.offset}
+        t2 = pg.tree
+        for pth, t, how in plan:
+            nv = how[1] if how[0] == 'const' else ends[how[2]] - bases[how[1]] + how[3]
+            if t == T_I32: nv = max(-2**31, min(2**31 - 1, nv))
+            if t == T_I16: nv = max(-2**15, min(2**15 - 1, nv))
+            if t == T_BYTE: nv = max(-128, min(127, nv))
+            t2 = _set(t2, pth, (_get(t2, pth)[0], t, nv))
+        hdr = T.encode_struct(t2)
+        delta = len(hdr) - pg.header_size
+        tree = _shift_footer_offsets(f.tree, pg.offset, delta, (gi, ci)) if delta else f.tree
+        fb = T.encode_struct(tree)
+        if len(hdr) == hs and len(fb) == flen:
+            break
+        hs, flen = len(hdr), len(fb)
+    body = data[:pg.offset] + hdr + data[pg.body:f.footer_start]
+    return body + fb + struct.pack('<I', len(fb)) + b'PAR1', 'page-header-field%s' % ('' if n == 1 else '-pair')
+
+
 def mutate(rng, data, f):
     """one mutant of a valid file. returns (bytes, class name)"""
+    if rng.random() < 0.15:
+        r = mutate_page_header_field(rng, data, f)
+        if r is not None:
+            return r
     c = rng.random()
     tree = f.tree
     if c < 0.42:
